@@ -20,7 +20,7 @@ RULE = ('(a) every raising call of random building histories on both topology fl
         'descriptor, model hash); non-trivial when the model was non-empty')
 REQUIRED = ['target:derived-id-collision', 'raising-calls', 'raising-calls:history', 'raising-calls:targeted', 'snapshots-compared', 'target:dup-name',
             'target:dup-id', 'target:bad-kw-position', 'target:bad-interface-position', 'target:facility-bad-tuple-position',
-            'target:unknown-model', 'target:subinterface-vlan', 'target:link-stale-end', 'target:component-if-id-collision', 'target:stale-service', 'retry:raised-again', 'target:node-with-services-position', 'target:derived-name-collision', 'target:link-end-not-a-handle', 'target-accepted:label-less-peer:copy_to_peer_labels']
+            'target:unknown-model', 'target:subinterface-vlan', 'target:link-stale-end', 'target:component-if-id-collision', 'target:stale-service', 'retry:raised-again', 'target:node-with-services-position', 'target:component-with-services-position', 'target:derived-name-collision', 'target:link-end-not-a-handle', 'target-accepted:label-less-peer:copy_to_peer_labels']
 ASSUMPTIONS = ['only argument rejections are injected (the statement is about rejected arguments); exceptions raised at arbitrary '
                'internal lines would demand a transaction mechanism the library does not promise',
                'the handle object the call was made on may be left changed (e.g. rename sets handle.name before validating); only '
@@ -168,6 +168,12 @@ def targeted_ops(rng, topo, flavour):
             out.append(('dup-name', dict(base, name=rng.choice(cn), node_id=nid('c'), model_type='GPU_A30')))
         out.append(('dup-id', dict(base, name=g.fresh('c'), node_id=rng.choice(any_ids), model_type='SmartNIC_ConnectX_6', **nic)))
         out.append(('unknown-model', dict(base, name=g.fresh('c'), node_id=nid('c'), ctype='GPU', model='NoSuchModel')))
+        # a component created together with services of its own: the j-th of them is refused (its id is in use)
+        for j in range(3):
+            svcs = [[g.fresh('cs'), 'OVS', g.fresh('cs-id')] for _ in range(3)]
+            svcs[j][2] = rng.choice(any_ids) if j or rng.random() < 0.5 else svcs[(j + 1) % 3][2]
+            out.append(('component-with-services-position', dict(base, name=g.fresh('c'), node_id=nid('c') or g.fresh('c-id'),
+                                                                 model_type='GPU_A30', ns_info=svcs)))
         out.append(('unknown-model', dict(base, name=g.fresh('c'), node_id=nid('c'), ctype='SmartNIC', model='RTX6000')))
         for pos in range(3):
             out.append(('bad-kw-position', dict(base, name=g.fresh('c'), node_id=nid('c'), model_type='SmartNIC_ConnectX_5',
